@@ -43,14 +43,14 @@ def handlers : List (String × (List String → List String → Option Verdict))
   ("vr", Driver.C12.vr),
   ("mon", Driver.C18.mon),
   ("sch6", Driver.Sched.sch6), ("sch7", Driver.Sched.sch7),
-  ("adv6", Driver.Sched.adv6), ("adv7", Driver.Sched.adv7), ("adv9", Driver.Sched.adv7),
+  ("adv6", Driver.Sched.adv6), ("adv7", Driver.Sched.adv7), ("rein", Driver.Sched.rein), ("tfl", Driver.Sched.tfl), ("adv9", Driver.Sched.adv7),
   ("lst", Driver.C09.lst),
   ("bt", Driver.C20.bt), ("sv", Driver.C20.sv),
   ("shut", Driver.C08.shut),
   ("d10", Driver.Dialer.d10), ("d11", Driver.Dialer.d11), ("rd", Driver.Dialer.rd), ("rdm", Driver.Dialer.rdm), ("sc", Driver.Sysctl.sc), ("ns", Driver.Netns.ns), ("scc", Driver.Sysctl.scc),
   ("srv", Driver.C20Serve.srv), ("http", Driver.C20Serve.http), ("grp", Driver.C10.grp), ("grpq", Driver.C10Q.grpq),
   ("pth", Driver.C04.pth),
-  ("scr", Driver.C17.scr), ("api", Driver.C17.api), ("rt", Driver.C17.rt),
+  ("scr", Driver.C17.scr), ("cgs", Driver.C17.cgs), ("api", Driver.C17.api), ("rt", Driver.C17.rt),
   ("pr", Driver.OSGlue.pr), ("osc", Driver.OSGlue.osc),
   ("ci", Driver.OSGlue.ci), ("li", Driver.OSGlue.li), ("nsi", Driver.OSGlue.nsi),
   ("ab", Driver.OSGlue.ab), ("rb", Driver.OSGlue.rb)
